@@ -95,6 +95,8 @@ class Cur:
         self.ncb = 0
         self.ncb_top = 0
         self.nprod_top = 0  # operator products of the outer call only (not user-function yields, not nested calls)
+        self.product_cap = None
+        self.product_cap_mi = None
         self.depth = 0
         self.explicit = explicit  # True: use step['x'] only
         self.cb = dict((step.get("x") or {}).get("cb") or {})
@@ -236,6 +238,11 @@ class Ctx:
             return inner @ X
         if cur.depth == 0:
             cur.nprod_top += 1
+            if cur.product_cap is not None and cur.nprod_top > cur.product_cap:
+                # reported at the offending product, so that an estimator that never stops cannot hang the run
+                raise Violation("C17", "I-STEPS", {
+                    "what": "Hutchinson estimator performed more operator products than max_iters",
+                    "products": cur.nprod_top, "max_iters": cur.product_cap_mi})
         act = self.yield_point(cur)
         Y = inner @ X
         if act[0] == "nonfinite":
@@ -789,6 +796,7 @@ class Ctx:
         fault = self.prepare_faults(step, out_step, body)
         self._pending_res = None
         self._held_res = None
+        self._next_product_cap = self.hutch_cap(step, args)
         outcome = self._guarded(step, fault, body, store=step.get("out"))
         cur_used = self._last_used
         after = "call step %d (%s, outcome %s)" % (sid, step["fn"], outcome[0])
@@ -844,6 +852,17 @@ class Ctx:
             self.held.append((label, a, arr_digest(a, with_layout=True)))
         del self.held[:-16]
         self.stats["results_held"] += len(arrs[:4])
+
+    def hutch_cap(self, step, args):
+        """max(1, max_iters) when the step is a Hutchinson call whose operand is directly a user operator (Probe)."""
+        if self.prop != "C17" or step["fn"] not in ("hutch", "diag_hutch", "trace_hutch"):
+            return None
+        A = args.get("A")
+        if type(A).__name__ != "LinearOperator" or not getattr(getattr(A, "_matmat", None), "__name__", "").startswith("probe"):
+            return None
+        alg = args.get("alg")
+        mi = getattr(alg, "max_iters", None) if alg is not None else step["args"].get("max_iters", 10000)
+        return None if mi is None else (max(1, mi), mi)
 
     def check_hutch_steps(self, step, args):
         """I-STEPS: Hutchinson performs <= max(1, max_iters) products (measured at the Probe seam)."""
@@ -978,6 +997,10 @@ class Ctx:
         sid = step["id"]
         cur = Cur(step, f["explicit"], f["plan"], {"raise_at": f["raise_at"], "nonfinite_at": f["nonfinite_at"]})
         cur.snap = self.model.get_state()
+        cap = getattr(self, "_next_product_cap", None)
+        if cap is not None and step["op"] == "call":
+            cur.product_cap, cur.product_cap_mi = cap
+        self._next_product_cap = None
         pre_state = rm.state_digest()
         self.cur = cur
         world.reset_sections()
